@@ -25,6 +25,9 @@ def build(spec):
         return Ellipse(spec["rx"], spec["ry"], origin=o)
     if k == "circle":
         return Circle(spec["r"], origin=o)
+    if k == "flat":
+        # a polygon obtained by flattening a shape: its straight edges remember the curve they came from (Line._orig)
+        return build(spec["of"]).flatten(spec["d"])
     return oc.path_from([[tuple(p) for p in s] for s in spec["segs"]], True)
 
 
